@@ -232,17 +232,7 @@ fn eval_filter_expr(
     };
 
     for predicate in filter.predicates() {
-        context.push_size(nodes.len());
-        let mut filtered = vec![];
-        for (position, n) in nodes.into_iter().enumerate() {
-            context.push_position(position + 1);
-            if eval_predicate(predicate, n.clone(), context)? {
-                filtered.push(n);
-            }
-            context.pop_position();
-        }
-        nodes = filtered;
-        context.pop_size();
+        nodes = filter_by_predicate(predicate, nodes, context)?;
     }
 
     Ok(nodes.as_value())
@@ -410,20 +400,38 @@ fn eval_axis_node_test(
     }
 
     for predicate in predicates {
-        context.push_size(nodes.len());
-        let mut filtered = vec![];
-        for (position, n) in nodes.into_iter().enumerate() {
-            context.push_position(position + 1);
-            if eval_predicate(predicate, n.clone(), context)? {
-                filtered.push(n);
-            }
-            context.pop_position();
-        }
-        nodes = filtered;
-        context.pop_size();
+        nodes = filter_by_predicate(predicate, nodes, context)?;
     }
 
     Ok(nodes)
+}
+
+/// Keep the nodes for which the predicate holds.  The context size and position pushed for
+/// the evaluation are popped on every path, including when the predicate fails, so that a
+/// re-used context is left as it was found.
+fn filter_by_predicate(
+    predicate: &expr::Expr,
+    nodes: Vec<dom::XmlNode>,
+    context: &mut model::Context,
+) -> error::Result<Vec<dom::XmlNode>> {
+    context.push_size(nodes.len());
+    let mut filtered = vec![];
+    for (position, n) in nodes.into_iter().enumerate() {
+        context.push_position(position + 1);
+        let matched = eval_predicate(predicate, n.clone(), context);
+        context.pop_position();
+        match matched {
+            Ok(true) => filtered.push(n),
+            Ok(false) => {}
+            Err(e) => {
+                context.pop_size();
+                return Err(e);
+            }
+        }
+    }
+    context.pop_size();
+
+    Ok(filtered)
 }
 
 fn eval_node_test(
